@@ -57,6 +57,12 @@ def wrap(v, name='arg', alphabet=None):
     from .models import AttrObject, HookModuleSpec, hook_ghost
     if isinstance(v, HookModuleSpec):
         raise TypeError("HookModuleSpec must be built before the call")
+    if isinstance(v, torch.nn.MaxPool1d) and hasattr(v, 'input') and hasattr(v, 'output'):
+        # a pooling module with its captured activations (C04: _maxpool)
+        one = lambda x: int(x[0]) if isinstance(x, (tuple, list)) else int(x)
+        return Opaque(name, 'nn_module', {'input': Tn.of_real(v.input.detach().clone(), 'input'), 'output': Tn.of_real(v.output.detach().clone(), 'output'),
+                                          'kernel_size': one(v.kernel_size), 'stride': one(v.stride), 'padding': one(v.padding), 'dilation': one(v.dilation),
+                                          'ceil_mode': bool(v.ceil_mode), 'types': ['torch.nn.MaxPool1d']})
     if isinstance(v, torch.nn.Module) and not isinstance(v, RecordingModel) and hasattr(v, '_NON_LINEAR_OPS'):
         # a real module seen through its ghost hook state (C07)
         g = hook_ghost(v)
